@@ -138,3 +138,8 @@ package security
 //@ watch CV = invoke (context.Context).Value
 //@ requires ctx != nil
 //@ ensures [C08:marker] calls(CV) == 1 && arg(CV,0,0) == boxof(failedBasicAuth) && (typeis(ret(CV,0,0), "string") ==> boxof(result) == ret(CV,0,0)) && (!typeis(ret(CV,0,0), "string") ==> result == "")
+
+//@ func FailedBasicAuth
+//@ watch FC = call FailedBasicAuthCtx
+//@ requires r != nil
+//@ ensures [C08:marker] calls(FC) == 1 && result == ret(FC,0,0)
